@@ -38,7 +38,7 @@ def configs(tier, seed):
     for f0 in (0, 1, 2):
         for signed in (None, False):
             out.append(dict(part='none', signed=signed, f0=f0, kbits=8, carrier='float', cells=2))
-    for signed in (True, False):
+    for signed in (True, False, None):
         for (ni, other, val) in (('n_word', 12, 3), ('n_frac', 5, 3), ('n_word', 8, 0), ('n_frac', 0, 7)):
             out.append(dict(part='n_int', signed=signed, f0=2, kbits=6, carrier='float', cells=1, n_int=val, other=ni, other_val=other))
     for f in (64, 70, 80):
